@@ -1,4 +1,4 @@
-"""C02 - facet and vertex kernels integrate over the indicated local entity (macro layout for interior facets)."""
+"""C02 - facet, vertex and ridge kernels integrate over the indicated local entity (macro layout for interior facets)."""
 from .. import s5
 from ..common import MachineryError
 
@@ -11,11 +11,59 @@ MANIFEST = {
             "both sides and random permutation codes. RefCell.tla supplies facet topology, reference->cell facet maps and outward normals as an "
             "independent transcription; Fem.tla recomputes the mapped quadrature points itself (a disagreement with the harness is a machinery "
             "failure), evaluates scale = pdet(J dF), n = K^T n_ref/|.|, and the macro layout A[+,-]x[+,-], w[coef][side][dof], "
-            "coordinate_dofs[side][node][3], entity_local_index[side]; every tensor entry must match the exact rational.",
+            "coordinate_dofs[side][node][3], entity_local_index[side]; every tensor entry must match the exact rational. "
+            "Ridge integrals (measure dr, codimension 2; ufcx type 4): RefCell.tla lists the ridges (edges of 3D cells, vertices of 2D "
+            "cells; compared with basix.topology per case), Fem.tla maps the reference-ridge points X = V_a + perm(s)(V_b - V_a) with the "
+            "reflection code of quadrature_permutation[0] and scales by |J (V_b - V_a)| (1 on 2D cells); every local ridge of the "
+            "triangle and the tetrahedron with both codes, the other cells on samples.",
     "design_ref": "DESIGN.md section 4 C02",
     "note": "Trusted as in C01. Geometries are chosen so that facet measures and unit normals are rational (perfect-square radicands); other "
-            "geometries are outside the exact model. Interior-facet pairs use degree-1 coordinate elements.",
+            "geometries are outside the exact model. Interior-facet pairs use degree-1 coordinate elements. Ridge cases: single-domain "
+            "integrals only (mixed-dimensional ridge integrals are not modelled), geometries with rational ridge length.",
 }
+
+
+RIDGES = {"triangle": 3, "quadrilateral": 4, "tetrahedron": 6, "hexahedron": 12, "prism": 9}    # ridges per cell
+
+
+def ridge_items(chk, quick):
+    """Ridge integrals (measure dr, ufcx integral type 4): edges of 3D cells, vertices of 2D cells.  Every local ridge
+    index of the triangle and the tetrahedron in both tiers (tetrahedron: with both reflection codes of the
+    reference-ridge points); the other cells on a sample of ridges (quick) / every ridge (thorough)."""
+    rc = s5.enumerate_formspace(chk, ridges=True)
+    mk = "harness.corpus.realise_facet"
+    items = []
+    # 1. all ridges: the P1 mass matrix (never zero on any ridge, so the vacuity guards below cannot trip on unlucky
+    #    data) and, thorough, further cheap scalar cases; on the tetrahedron with the custom rule {1/4, 5/8}
+    #    (corpus.CUSTOM["interval"][1]: not symmetric under s -> 1 - s, so the reflection code matters) and both codes
+    #    on every edge
+    for j, (cl, rule) in enumerate((("triangle", "exact"), ("tetrahedron", "custom"))):
+        cs = [c for c in rc if c["cell"] == cl and c["rule"] == rule and c["elem"] in ("P1", "DG1")]
+        pick = [c for c in cs if c["elem"] == "P1" and c["term"] == "mass"]
+        if len(pick) != 1:
+            raise MachineryError(f"FormSpace.tla no longer has the {cl}/P1/mass/dr/{rule} case")
+        if not quick:
+            pick += s5.sample_cases([c for c in cs if c["term"] in ("coef", "fload", "rgrad", "xw")], 2, chk.seed + 50 + j)
+        for i, c in enumerate(pick):
+            items.append({"case": c, "seed": chk.seed * 100003 + 700 + 10 * j + i, "scalar": "float64", "ninputs": 1,
+                          "builder": mk, "allperms": True, "custom_which": 1, "label": s5.case_label(c) + "|allridges"})
+    # 2. covering sample of the whole dr space
+    sel = s5.sample_cases(rc, 5 if quick else 70, chk.seed + 5, max_cost=2.5 if quick else 30)
+    for i, c in enumerate(sel):
+        items.append({"case": c, "seed": chk.seed * 100003 + 800 + i, "scalar": "float64", "builder": mk,
+                      "ninputs": 2 if not quick and c["cell"] in ("triangle", "quadrilateral") else 1,
+                      "max_entities": 2 if quick else None, "prefill": i % 2 == 0})
+    # 3. cells whose Jacobian varies along the ridge (degree-1 hypercubes / prism with nodes off the ridge moved): the
+    #    ridge keeps its rational length, J and K at the ridge's points differ from point to point
+    if not quick:
+        cs = [c for c in rc if c["cell"] in ("quadrilateral", "hexahedron", "prism") and c["rule"] != "vertex"
+              and c["term"] in ("mass", "coef", "rgrad", "xw", "area")
+              # 1 / det J varies along the edge: grad-grad is not a polynomial there, a default rule is no exact oracle
+              and not (c["term"] == "rgrad" and c["rule"] == "exact" and c["cell"] in ("hexahedron", "prism"))]
+        for i, c in enumerate(s5.sample_cases(cs, 10, chk.seed + 6, max_cost=30)):
+            items.append({"case": c, "seed": chk.seed * 100003 + 1200 + i, "scalar": "float64", "ninputs": 1, "builder": mk,
+                          "geom": "nonaffine", "max_entities": 4, "label": s5.case_label(c) + "|nonaffine"})
+    return items
 
 
 def run(chk):
@@ -45,13 +93,24 @@ def run(chk):
     # S7: the table pipeline (clamp / classify / compress / dedupe / access) with injected tables, facet scope
     from .. import s7
     chk.add(s7=s7.run_tables(chk, "facet"))
+    items += ridge_items(chk, quick)
     recs = s5.run_items(chk, items, nworkers=4 if quick else 6)
     nz = s5.report(chk, items, recs)
     ents = {(lab, e) for (lab, it, e, p) in nz}
+    rnz = {(lab, e[0], p[0]) for (lab, it, e, p) in nz if it == "ridge"}
+    rents = {(lab.split("/")[0], e) for (lab, e, p) in rnz}
+    chk.add(ridge_cases=len(rnz), ridge_entities=len(rents))
+    for cl in ("triangle", "tetrahedron"):
+        miss = [e for e in range(RIDGES[cl]) if (cl, e) not in rents]
+        if miss:
+            raise MachineryError(f"vacuity guard: no non-trivial ridge case on local ridges {miss} of the {cl}")
+    if {p for (lab, e, p) in rnz if lab.startswith("tetrahedron/")} != {0, 1}:
+        raise MachineryError("vacuity guard: the reflection codes 0 and 1 of tetrahedron ridges were not both exercised")
     chk.add(distinct_nontrivial=len(nz), distinct_entities=len(ents),
             rule="facet cases enumerated by TLC from FormSpace.tla (FCase), seed-sampled to cover every attribute value and "
                  "(element, term) pair; each exterior-facet/vertex case runs on local entities, each interior-facet case on "
-                 "generated neighbour pairs x permutation codes; non-trivial = exact tensor not all zero; "
+                 "generated neighbour pairs x permutation codes; ridge cases (measure dr) run on local ridges x "
+                 "reflection codes; non-trivial = exact tensor not all zero; "
                  "distinct = (case, integral type, entities, permutation codes)")
     if len(nz) < (40 if quick else 400):
         raise MachineryError(f"vacuity guard: only {len(nz)} non-trivial facet cases were evaluated")
